@@ -1407,6 +1407,11 @@ class System:
             i += 1
         prev = self.allobjects[fullName]
         obj.report(f"duplicate {str(prev)}", thresh=1)
+        def subtree(o: Documentable) -> Iterator[Documentable]:
+            yield o
+            for c in o.contents.values():
+                yield from subtree(c)
+        old_names = [o.fullName() for o in subtree(prev)]
         self._remove(prev)
         prev.name = obj.name + ' ' + str(i)
         def readd(o: Documentable) -> None:
@@ -1415,6 +1420,13 @@ class System:
                 readd(c)
         readd(prev)
         self.allobjects[fullName] = obj
+        # The record of which objects had their docstring errors reported is keyed by
+        # full name: it follows the renamed objects, the new object starts with a clean slate.
+        for reported in self.parse_errors.values():
+            for old_name, o in zip(old_names, subtree(prev)):
+                if old_name in reported:
+                    reported.discard(old_name)
+                    reported.add(o.fullName())
 
 
     def getProcessedModule(self, modname: str) -> Optional[_ModuleT]:
